@@ -266,7 +266,11 @@ func cmdRun(args []string) int {
 				queue = queue[1:]
 				mu.Unlock()
 				j := jobs[wk.ji]
-				e, err := NewExec(ldOf[j.h], *solverKind, *qtimeout)
+				qt := *qtimeout
+				if j.h.QTimeout > qt {
+					qt = j.h.QTimeout
+				}
+				e, err := NewExec(ldOf[j.h], *solverKind, qt)
 				if err != nil {
 					mu.Lock()
 					partial[wk.ji] = append(partial[wk.ji], &ExploreResult{Harness: j.h.Name, Instance: j.inst, Inconclusive: []string{"solver start: " + err.Error()}})
